@@ -150,8 +150,13 @@ func dnsRewritesVia(entry string, texts []string, objs []*rules.NetworkRule) (al
 		}
 		all = res.DNSRewritesAll()
 		allTexts := textsOf(all)
-		got = res.DNSRewrites()
-		// asking twice must give the same answer (the first call must not damage the result)
+		first := res.DNSRewrites()
+		got = append([]*rules.NetworkRule{}, first...)
+		// asking twice must give the same answer: the first call must not damage the result, and what the caller does
+		// to the slice it was handed (here: wiped) is the caller's business
+		for i := range first {
+			first[i] = nil
+		}
 		again := res.DNSRewrites()
 		if !eqStrs(textsOf(got), textsOf(again)) {
 			panic("DNSRewrites() not idempotent")
@@ -307,7 +312,7 @@ func rndRewriteValue(rnd *rand.Rand) string {
 	case 6:
 		return []string{"NXDOMAIN", "REFUSED", "SERVFAIL", "NXDOMAIN;;", "REFUSED;A;1.1.1.1"}[rnd.Intn(5)]
 	case 7:
-		return "NOERROR;TXT;" + []string{"hello", "world", ""}[rnd.Intn(3)]
+		return "NOERROR;TXT;" + []string{"hello", "world", "", "c1.test."}[rnd.Intn(4)]
 	case 8:
 		return fmt.Sprintf("NOERROR;MX;%d %s", []int{10, 20}[rnd.Intn(2)], hosts[rnd.Intn(3)])
 	case 9:
